@@ -812,6 +812,16 @@ def tensor_transpose(arr: ndarray, order: Sequence[int], arr_dims: Sequence[Sequ
     _parse_dims_arg('arr', arr_dims, rank)
 
     ndim = len(arr_dims[0])
+    try:
+        if sorted(order) != list(range(ndim)):
+            # E.g. negative entries, which numpy would interpret as axes
+            # belonging to a different index of the tensor product
+            raise ValueError("Could not transpose the order. Are all elements "
+                             + "of 'order' unique and match the array?")
+    except TypeError:
+        # Handled below
+        pass
+
     # Number of axes that are broadcast over
     n_broadcast = len(arr.shape[:-rank])
     transpose_axes = ([i for i in range(n_broadcast)]
